@@ -287,6 +287,28 @@ pub fn evaluate(tok: &str) -> Eval {
     let int_val: String;
     if int_part.contains(&',') {
         if has_unit {
+            // separators inside the coefficient of a unit ("2,300万", "2,30万"): the value of the well-formed spelling is not
+            // defined by the statement, but a group of other than three digits after a separator (or a separator with no
+            // 1-3 digits before it) is a bad separator position wherever it stands
+            let s: String = int_part.iter().collect();
+            for run in s.split(|c: char| SMALL.contains(&c) || LARGE.iter().any(|l| l.0 == c)) {
+                if !run.contains(',') {
+                    continue;
+                }
+                for (i, g) in run.split(',').enumerate() {
+                    if g.chars().any(|c| dval(c).is_none()) {
+                        return Eval::Unspecified;
+                    }
+                    let n = g.chars().count();
+                    if i == 0 {
+                        if n == 0 || n > 3 {
+                            return Eval::Malformed("leading separator group");
+                        }
+                    } else if n != 3 {
+                        return Eval::Malformed("separator group is not three digits");
+                    }
+                }
+            }
             return Eval::Unspecified;
         }
         let s: String = int_part.iter().collect();
@@ -626,8 +648,11 @@ pub fn run(ctx: &Ctx, rep: &mut Report) {
                 };
                 let malformed = rng.chance(1, 4);
                 let raw = if malformed {
-                    match rng.below(6) {
+                    match rng.below(7) {
                         0 | 1 => gen_bad_grouping(&mut rng),
+                        // a badly grouped coefficient directly before a unit ("2,30万", "1,2千", "12,3456億5")
+                        6 => format!("{}{}{}", if rng.chance(1, 2) { gen_bad_grouping(&mut rng) } else { format!("{},{}", rng.s(&["1", "2", "12", "305"]), rng.s(&["3", "30", "3456", "00", "七", "二〇"])) },
+                            rng.s(&["十", "百", "千", "万", "億", "兆"]), rng.s(&["", "", "5", "2千", "3,000"])),
                         // a point directly followed by a unit, then more digits / units
                         2 => format!("{}.{}{}", rng.s(&["8", "3", "12", "二", "1,000"]), rng.s(&["十", "百", "千", "万", "億", "兆"]), rng.s(&["5", "2千万", "五千億", "", "00", "3.5"])),
                         // a plain digit group that is too long for the unit before it (or just long)
